@@ -612,7 +612,7 @@ pub fn run(ctx: &Ctx) -> Report {
     if !cur.is_empty() {
         batches.push(cur);
     }
-    let n_hist = ctx.budget(300, 20_000);
+    let n_hist = ctx.budget(3_000, 60_000);
     let seed = ctx.seed;
     let batches_ref = &batches;
     let mut rep = parallel(ctx.threads, |shard, n| {
